@@ -315,6 +315,8 @@ def run(ctx: Ctx) -> None:
              "computed from an evaluated instance is kept")
     from sa.checks.c12 import _memo
     _memo(ctx, "D17.10")
+    ctx.rule("D17.11", "a parameter declared as Iterable is traversed once")
+    _single_pass(ctx)
     ctx.assumptions += [
         "items are [width, height] lists; cut_dimension is 0 or 1",
         "Instance(...) validates what it is given (C03/C19 cover its "
@@ -1931,3 +1933,64 @@ def _zero_on_template(ctx: Ctx) -> None:
            "template's own range: every term vanishes on the template"
            if not problems else "; ".join(dict.fromkeys(problems))[:900],
            construct="zero on the template")
+
+
+
+# ----------------------------------------------------------------- D17.11
+_CONSUMERS = {"tuple", "list", "set", "frozenset", "sorted", "sum", "max",
+              "min", "any", "all", "map", "filter", "zip", "enumerate",
+              "iter", "next", "dict", "reversed"}
+
+
+def _single_pass(ctx: Ctx) -> None:
+    """The constructors of the instance-generation objectives declare
+    `executors: Iterable[...]`: a generator is a legal argument and can be
+    traversed once.  Every such parameter is consumed at most once before it
+    is re-bound to a materialised collection (a second traversal would see
+    nothing: zero runs, division by zero in `evaluate`)."""
+    repo = ctx.repo
+    n = 0
+    for fi in repo.all_funcs():
+        if not fi.module.name.startswith(
+                "moptipyapps.binpacking2d.instgen"):
+            continue
+        a = fi.node.args
+        for arg in a.posonlyargs + a.args + a.kwonlyargs:
+            ann = ast.unparse(arg.annotation) if arg.annotation else ""
+            if not ann.startswith("Iterable"):
+                continue
+            n += 1
+            p = arg.arg
+            uses: list[ast.AST] = []
+            rebound_at = None
+            for st in ast.walk(fi.node):
+                if isinstance(st, (ast.For, ast.comprehension)) and \
+                        isinstance(st.iter, ast.Name) and st.iter.id == p:
+                    uses.append(st)
+                elif isinstance(st, ast.Call) and isinstance(
+                        st.func, ast.Name) and st.func.id in _CONSUMERS \
+                        and any(isinstance(x, ast.Name) and x.id == p
+                                for x in st.args):
+                    uses.append(st)
+                elif isinstance(st, ast.Starred) and isinstance(
+                        st.value, ast.Name) and st.value.id == p:
+                    uses.append(st)
+            for st in ast.walk(fi.node):
+                if isinstance(st, (ast.Assign, ast.AnnAssign)) and any(
+                        isinstance(t, ast.Name) and t.id == p for t in (
+                            st.targets if isinstance(st, ast.Assign)
+                            else [st.target])):
+                    rebound_at = st.lineno
+            before = [u for u in uses if rebound_at is None
+                      or getattr(u, "lineno", 0) <= rebound_at]
+            ok = len(before) <= 1
+            ctx.ob("D17.11", fi, before[1] if len(before) > 1 else fi.node,
+                   ok, f"{fi.qualname}: `{p}: {ann[:30]}` is traversed "
+                   f"{len(before)} time(s)" + ("" if ok else
+                                               " before it is materialised: "
+                                               "a one-shot iterable "
+                                               "(generator, map) is empty "
+                                               "the second time"),
+                   construct=f"single pass over {p} in {fi.qualname}",
+                   nontrivial=False)
+    ctx.count("iterable_parameters", n)
